@@ -620,6 +620,9 @@ func TestC23(t *testing.T) {
 
 	r.Cases("scripted", r.N(3, 40)*len(scenarios), func(c *ev.Case) { runScript(c, net, g, base) })
 	r.Cases("histories", r.N(160, 6000), func(c *ev.Case) { runHistory(c, net, g, base) })
+	nRace := r.N(80, 3000)
+	r.Cases("racing", nRace, func(c *ev.Case) { runRacing(c, net, g, base) })
+	racingFloors(r, nRace)
 
 	r.Floor("histories_completed", int64(r.N(150, 5800)))
 	r.Floor("scripted_histories_completed", int64(r.N(30, 420)))
